@@ -217,11 +217,11 @@ Proof.
   intros i Hwf Hopen. unfold spec, model.
   destruct (hit (in_plan i) (in_prog i)) eqn:Hhit; [|reflexivity].
   destruct (answer (in_plan i) (in_prog i)) as [cls e cs] eqn:Ha. cbn [r_cls r_err r_creds].
-  rewrite <- Ha. destruct i as [r f p]. cbn [in_flow in_plan in_prog] in *.
+  rewrite <- Ha. destruct i as [r f w p]. cbn [andb]. cbn [in_flow in_plan in_prog] in *.
   apply (fail_closed_run (closed_answer f) (excused f) (handler r f)).
   - apply handlers_fail_closed. exact Hwf.
   - exact Hhit.
-  - exact (open_finding_false (Req r f p) Hopen).
+  - exact (open_finding_false (Req r f w p) Hopen).
 Qed.
 
 Lemma fail_closed_prop : forall r f p, wf_flow f = true ->
@@ -239,15 +239,15 @@ Qed.
 
 Lemma fail_closed_refuted_discovery :
   exists i, wf_input i = true /\ spec i (model i) = false.
-Proof. exists (Req RProvider FDiscovery (PAt 1 KError)). vm_compute. split; reflexivity. Qed.
+Proof. exists (Req RProvider FDiscovery false (PAt 1 KError)). vm_compute. split; reflexivity. Qed.
 
 Lemma fail_closed_refuted_revocation :
   exists i, wf_input i = true /\ spec i (model i) = false.
-Proof. exists (Req RLegacy (FRevoke Web2 RevAccess true) (PMethod MKeySet KDeadline)). vm_compute. split; reflexivity. Qed.
+Proof. exists (Req RLegacy (FRevoke Web2 RevAccess true) true (PMethod MKeySet KDeadline)). vm_compute. split; reflexivity. Qed.
 
 Lemma fail_closed_nonvacuous :
   exists i, wf_input i = true /\ open_finding i = false /\ hit (in_plan i) (in_prog i) = true.
-Proof. exists (Req RLegacy (FTokenCode Web2 true) (PAt 6 KDeadline)). vm_compute. repeat split. Qed.
+Proof. exists (Req RLegacy (FTokenCode Web2 true) true (PAt 6 KDeadline)). vm_compute. repeat split. Qed.
 
 Lemma device_mapping : forall r c off oid p kd rest,
   faults p (handler r (FDeviceToken c off oid)) = (MGetDeviceAuthorizatonState, kd) :: rest ->
@@ -287,3 +287,7 @@ Proof.
   intro H. destruct fail_closed_refuted_discovery as [i [Hwf Hs]].
   rewrite (H i Hwf) in Hs. discriminate Hs.
 Qed.
+
+(* the model has no state besides the storage: having served the request before changes nothing *)
+Lemma warm_irrelevant : forall r f p, model (Req r f true p) = model (Req r f false p).
+Proof. reflexivity. Qed.
